@@ -133,6 +133,16 @@ def set_wide_longitudes(flag=True):
     _os.environ['VMON_WIDE_LON'] = '1' if flag else '0'
 
 
+OVERLAP_POLICY = {'on': _os.environ.get('VMON_OVERLAP') == '1'}
+
+
+def set_overlapping_cells(flag=True):
+    """C04 only: CF 1-D grids whose stored cell bounds reach a quarter of a cell into each neighbour (CF does not require
+    bounds to be contiguous). Every other property assumes cells that do not overlap."""
+    OVERLAP_POLICY['on'] = bool(flag)
+    _os.environ['VMON_OVERLAP'] = '1' if flag else '0'
+
+
 def lon_origin(rng):
     if LON_POLICY['wide'] and rng.random() < 0.3:
         return float(rng.uniform(172, 186)) if rng.random() < 0.4 else float(rng.uniform(200, 330))
@@ -288,6 +298,17 @@ def make_cf1d(rng, *, ny=None, nx=None, bounds=None, coord_style=None, ident=Non
         bounds_rows = 'sorted'
         lat_b = [tuple(sorted(p)) for p in lat_b]
         lon_b = [tuple(sorted(p)) for p in lon_b]
+    overlap = False
+    if OVERLAP_POLICY['on'] and bounds != 'none' and bounds_axes == 'both' and chance(rng, 0.3):
+        overlap = True
+
+        def widen(pairs):
+            out = []
+            for a, b in pairs:
+                h = 0.25 * (b - a)              # signed: outward whichever way the pair is written
+                out.append((a - h, b + h))
+            return out
+        lat_b, lon_b = widen(lat_b), widen(lon_b)
     m.lat_bounds = numpy.array(lat_b)
     m.lon_bounds = numpy.array(lon_b)
     if coord_style == 'dimcoord':
@@ -305,6 +326,8 @@ def make_cf1d(rng, *, ny=None, nx=None, bounds=None, coord_style=None, ident=Non
         m.encoding['bounds_axes'] = bounds_axes
     if bounds_rows != 'axis':
         m.encoding['bounds_rows'] = bounds_rows
+    if overlap:
+        m.encoding['overlapping_cells'] = True
     if bounds == 'none' and chance(rng, 0.25):
         m.encoding['dangling_bounds'] = True
     if ident == 'units':
